@@ -106,6 +106,22 @@ theorem align_returns (lsq : Lsq ℝ) (origin x : Vec3 ℝ) (xs xyPlane : List (
   align_total gen_deflip.1 gen_deflip.2.1 gen_deflip.2.2.1 gen_deflip.2.2.2 gen_params_split.1 gen_params_split.2.1
     lsq origin x xs xyPlane k b bs hlen
 
+/-- the two exceptions of `align` on well-shaped input: no x-axis sample → ValueError (numpy's ambiguous truth value on
+the nan mean); no base station → IndexError (`list(bs_poses.values())[0]`) -/
+theorem align_raises (lsq : Lsq ℝ) (origin x : Vec3 ℝ) (xs xyPlane : List (Vec3 ℝ)) (bs : List (Nat × Pose ℝ))
+    (h0 : ∃ a b c d e f, lsq (fun p => calcResidual p origin [] xyPlane) (List.replicate Gen.C16.nParams 0) = [a, b, c, d, e, f])
+    (h1 : ∃ a b c d e f, lsq (fun p => calcResidual p origin (x :: xs) xyPlane) (List.replicate Gen.C16.nParams 0) = [a, b, c, d, e, f]) :
+    align lsq origin [] xyPlane bs = .error .valueError ∧ align lsq origin (x :: xs) xyPlane [] = .error .indexError := by
+  obtain ⟨a, b, c, d, e, f, hl0⟩ := h0
+  obtain ⟨a', b', c', d', e', f', hl1⟩ := h1
+  constructor
+  · unfold align findTransformation
+    rw [hl0, poseFromParams_six gen_params_split.1 gen_params_split.2.1]
+    simp only [bind, Except.bind, alignWith, deFlip_no_x]
+  · unfold align findTransformation
+    rw [hl1, poseFromParams_six gen_params_split.1 gen_params_split.2.1]
+    simp only [bind, Except.bind, alignWith, deFlip_no_bs gen_deflip.1]
+
 /-- **distances are preserved**: between the positions of any two aligned base stations (indeed of any two points). -/
 theorem align_preserves_distances (lsq : Lsq ℝ) (origin : Vec3 ℝ) (xAxis xyPlane : List (Vec3 ℝ))
     (bsPoses result : List (Nat × Pose ℝ)) (T : Pose ℝ)
